@@ -389,33 +389,33 @@ Qed.
 Definition seed_unlinkable (o : fobs) : bool :=
   o_symlink o || match o_stat o with Some s => negb (is_dir s) | None => false end.
 
-Lemma seed_step_refused force id tg o chain :
-  sr_refuse (seed_step force id tg o chain) <> None ->
+Lemma seed_step_refused force id tg cr o chain :
+  sr_refuse (seed_step force id tg cr o chain) <> None ->
   force = false /\ dir_verdict FSeed o id tg chain <> Secure /\
-  sr_hang (seed_step force id tg o chain) = false /\
-  sr_used (seed_step force id tg o chain) = false /\
-  sr_removed (seed_step force id tg o chain) = false.
+  sr_hang (seed_step force id tg cr o chain) = false /\
+  sr_used (seed_step force id tg cr o chain) = false /\
+  sr_removed (seed_step force id tg cr o chain) = false.
 Proof.
   unfold seed_step. destruct (dir_verdict FSeed o id tg chain) as [|i r], force;
   destruct (seed_blocks o); destruct (seed_read id o) as [bad used]; cbn; intros H; try congruence;
   repeat split; congruence.
 Qed.
 
-Lemma seed_step_hang force id tg o chain :
-  sr_hang (seed_step force id tg o chain) = true <->
-  sr_refuse (seed_step force id tg o chain) = None /\ seed_blocks o = true.
+Lemma seed_step_hang force id tg cr o chain :
+  sr_hang (seed_step force id tg cr o chain) = true <->
+  sr_refuse (seed_step force id tg cr o chain) = None /\ seed_blocks o = true.
 Proof.
   unfold seed_step. destruct (dir_verdict FSeed o id tg chain) as [|i r], force;
   destruct (seed_blocks o); destruct (seed_read id o) as [bad used]; cbn; split; intros H;
   try discriminate; try tauto; try (destruct H; discriminate).
 Qed.
 
-Lemma seed_step_run force id tg o chain :
-  sr_refuse (seed_step force id tg o chain) = None ->
-  sr_hang (seed_step force id tg o chain) = false ->
+Lemma seed_step_run force id tg cr o chain :
+  sr_refuse (seed_step force id tg cr o chain) = None ->
+  sr_hang (seed_step force id tg cr o chain) = false ->
   (force = true \/ dir_verdict FSeed o id tg chain = Secure) /\
-  sr_used (seed_step force id tg o chain) = snd (seed_read id o) /\
-  sr_removed (seed_step force id tg o chain) = fst (seed_read id o) && seed_unlinkable o.
+  sr_used (seed_step force id tg cr o chain) = snd (seed_read id o) /\
+  sr_removed (seed_step force id tg cr o chain) = fst (seed_read id o) && cr && seed_unlinkable o.
 Proof.
   unfold seed_step, seed_unlinkable. destruct (dir_verdict FSeed o id tg chain) as [|i r], force;
   destruct (seed_blocks o); destruct (seed_read id o) as [bad used]; cbn; intros H H';
@@ -448,14 +448,16 @@ Proof.
     + split; [discriminate|]. intros [[_ (s & E & _)] _]. discriminate.
 Qed.
 
-(* used only when acceptable; a present seed that is not acceptable is never used and is unlinked
-   (unlink(2) cannot remove a directory: the one case where it stays, unused); the start blocks exactly
+(* used only when acceptable; a present seed that is not acceptable is never used and is unlinked — when the
+   process may remove names from the seed's directory (cr) and the seed is not itself a directory; otherwise it
+   stays where it is, unused (what happens to it at exit: seed_write_any_prior); the start blocks exactly
    when the seed is a FIFO and the source opens it without O_NONBLOCK *)
-Theorem seed_spec force id tg o chain :
-  let r := seed_step force id tg o chain in
+Theorem seed_spec force id tg cr o chain :
+  let r := seed_step force id tg cr o chain in
   (sr_used r = true -> seed_acceptable (i_euid id) o) /\
   (sr_refuse r = None -> sr_hang r = false -> seed_present o -> ~ seed_acceptable (i_euid id) o ->
-     sr_used r = false /\ (~ seed_is_dir o -> sr_removed r = true)) /\
+     sr_used r = false /\ (~ seed_is_dir o -> cr = true -> sr_removed r = true) /\
+     (cr = false -> sr_removed r = false)) /\
   (sr_refuse r = None -> seed_acceptable (i_euid id) o ->
      sr_hang r = false /\ sr_used r = true /\ sr_removed r = false) /\
   (force = false -> (sr_refuse r = None <-> Forall (dir_ok (i_euid id) tg 0) chain)) /\
@@ -466,28 +468,30 @@ Proof.
   cbv zeta.
   assert (F : Forall (dir_ok (i_euid id) tg 0) chain <-> dir_verdict FSeed o id tg chain = Secure).
   { rewrite dir_verdict_walk, path_secure_as_spec. apply forall_dir_ok_flags. vm_compute. reflexivity. }
-  assert (HU : sr_hang (seed_step force id tg o chain) = true ->
-               sr_used (seed_step force id tg o chain) = false /\
-               sr_removed (seed_step force id tg o chain) = false).
+  assert (HU : sr_hang (seed_step force id tg cr o chain) = true ->
+               sr_used (seed_step force id tg cr o chain) = false /\
+               sr_removed (seed_step force id tg cr o chain) = false).
   { unfold seed_step. destruct (dir_verdict FSeed o id tg chain) as [|i r], force;
     destruct (seed_blocks o); destruct (seed_read id o) as [bad used]; cbn; intros H;
     try discriminate; tauto. }
   split; [|split; [|split; [|split; [|split; [|split]]]]].
-  - intros U. destruct (sr_refuse (seed_step force id tg o chain)) eqn:R.
-    + assert (X : sr_refuse (seed_step force id tg o chain) <> None) by congruence.
+  - intros U. destruct (sr_refuse (seed_step force id tg cr o chain)) eqn:R.
+    + assert (X : sr_refuse (seed_step force id tg cr o chain) <> None) by congruence.
       apply seed_step_refused in X. destruct X as (_ & _ & _ & X & _). congruence.
-    + destruct (sr_hang (seed_step force id tg o chain)) eqn:Hg.
+    + destruct (sr_hang (seed_step force id tg cr o chain)) eqn:Hg.
       * destruct (HU eq_refl) as [X _]. congruence.
       * apply seed_step_run in R; [|exact Hg]. destruct R as (_ & R & _). rewrite R in U.
         apply seed_read_used. exact U.
   - intros R Hg P NA. apply seed_step_run in R; [|exact Hg]. destruct R as (_ & R1 & R2). split.
     + rewrite R1. destruct (snd (seed_read id o)) eqn:E; [|reflexivity].
       apply seed_read_used in E. tauto.
-    + intros ND. rewrite R2, (seed_unlinkable_spec o P ND), andb_true_r.
-      apply seed_read_bad. tauto.
+    + split.
+      * intros ND ->. rewrite R2, (seed_unlinkable_spec o P ND), !andb_true_r.
+        apply seed_read_bad. tauto.
+      * intros ->. rewrite R2, andb_false_r. reflexivity.
   - intros R A.
-    assert (Hg : sr_hang (seed_step force id tg o chain) = false).
-    { destruct (sr_hang (seed_step force id tg o chain)) eqn:Hg; [|reflexivity].
+    assert (Hg : sr_hang (seed_step force id tg cr o chain) = false).
+    { destruct (sr_hang (seed_step force id tg cr o chain)) eqn:Hg; [|reflexivity].
       apply seed_step_hang in Hg. destruct Hg as [_ B]. apply seed_blocks_spec in B.
       destruct B as [[_ (s & E & T)] _]. destruct A as (_ & s' & E' & T' & _). congruence. }
     split; [exact Hg|].
@@ -593,9 +597,9 @@ Definition safe_new (id : ident) (bound : N) (e' : fobs) (s : fstat) : Prop :=
   e' = e_file s /\ f_type s = TReg /\ f_uid s = i_euid id /\ f_gid s = i_egid id /\
   within (f_mode s) bound = true.
 
-Lemma unlink_fails_spec e : unlink_fails e = true <-> entry_is_dir e.
+Lemma is_dir_entry_spec e : is_dir_entry e = true <-> entry_is_dir e.
 Proof.
-  unfold unlink_fails, entry_is_dir. destruct (o_symlink e); cbn.
+  unfold is_dir_entry, entry_is_dir. destruct (o_symlink e); cbn.
   - split; [discriminate|]. intros [X _]. discriminate.
   - destruct (o_stat e) as [s|].
     + rewrite is_dir_true. split.
@@ -604,55 +608,79 @@ Proof.
     + split; [discriminate|]. intros [_ (s & E & _)]. discriminate.
 Qed.
 
-Lemma fs_unlink_cases e :
-  (unlink_fails e = true /\ fs_unlink e = e) \/ (unlink_fails e = false /\ fs_unlink e = e_absent).
-Proof. unfold fs_unlink. destruct (unlink_fails e); [left|right]; split; reflexivity. Qed.
-
-Lemma open_dir_fails excl nofollow id m e :
-  unlink_fails e = true -> fs_open_creat excl nofollow id m e = OFail.
+Lemma is_dir_entry_present e : is_dir_entry e = true -> present e = true.
 Proof.
-  intros H. apply unlink_fails_spec in H. destruct H as [L (s & E & T)].
+  unfold is_dir_entry, present. destruct (o_symlink e); [reflexivity|]. cbn.
+  destruct (o_stat e); [reflexivity|discriminate].
+Qed.
+
+(* unlink fails (errno other than ENOENT) exactly on a directory, or on anything the process may not remove *)
+Lemma unlink_fails_spec p e :
+  unlink_fails p e = true <-> entry_is_dir e \/ (present e = true /\ p_remove p = false).
+Proof.
+  unfold unlink_fails. rewrite orb_true_iff, andb_true_iff, negb_true_iff, is_dir_entry_spec. tauto.
+Qed.
+
+Lemma unlink_fails_present p e : unlink_fails p e = true -> present e = true.
+Proof.
+  unfold unlink_fails. rewrite orb_true_iff, andb_true_iff. intros [H|[H _]]; [apply is_dir_entry_present|]; exact H.
+Qed.
+
+Lemma unlink_fails_all e : unlink_fails all_perm e = is_dir_entry e.
+Proof. unfold unlink_fails. cbn. rewrite andb_false_r, orb_false_r. reflexivity. Qed.
+
+Lemma fs_unlink_cases p e :
+  (unlink_fails p e = true /\ fs_unlink p e = e) \/ (unlink_fails p e = false /\ fs_unlink p e = e_absent).
+Proof. unfold fs_unlink. destruct (unlink_fails p e); [left|right]; split; reflexivity. Qed.
+
+Lemma open_dir_fails excl nofollow cc id m e :
+  is_dir_entry e = true -> fs_open_creat excl nofollow cc id m e = OFail.
+Proof.
+  intros H. apply is_dir_entry_spec in H. destruct H as [L (s & E & T)].
   unfold fs_open_creat. rewrite L, E. destruct excl; [reflexivity|].
   unfold open_existing. rewrite T. reflexivity.
 Qed.
 
-Lemma open_absent excl nofollow id m :
-  fs_open_creat excl nofollow id m e_absent = OOpened (e_file (fresh_file id m)) (fresh_file id m).
+Lemma open_absent excl nofollow cc id m :
+  fs_open_creat excl nofollow cc id m e_absent =
+  if cc then OOpened (e_file (fresh_file id m)) (fresh_file id m) else OFail.
 Proof. reflexivity. Qed.
-
-(* unlink first: whatever was there, the result is a brand-new file — or nothing, when a directory is in the way *)
-Lemma create_at_unlinked h r id u e : h_unlink h = true ->
-  create_at h r id u e =
-  if unlink_fails e then OFail
-  else OOpened (e_file (fresh_file id (created r u))) (fresh_file id (created r u)).
-Proof.
-  intros H. unfold create_at. rewrite H.
-  destruct (fs_unlink_cases e) as [[F E]|[F E]]; rewrite E, F.
-  - rewrite open_dir_fails by exact F. reflexivity.
-  - rewrite open_absent. unfold created. destruct (r_chmod r); reflexivity.
-Qed.
 
 (* whatever open() returns a descriptor for is what stat() reports at the name afterwards *)
 Lemma open_existing_opened id s e e' s' :
-  o_stat e = Some s -> open_existing id s e = OOpened e' s' -> e' = e /\ s' = s.
+  o_stat e = Some s -> open_existing id s e = OOpened e' s' -> e' = e /\ s' = s /\ may_write id s = true.
 Proof.
   unfold open_existing. intros E. destruct (f_type s); destruct (may_write id s); intros H;
   try discriminate; inversion H; tauto.
 Qed.
 
-Lemma fs_open_creat_opened excl nofollow id m e e' s :
-  fs_open_creat excl nofollow id m e = OOpened e' s ->
-  o_stat e' = Some s /\
-  ((o_stat e = None /\ s = fresh_file id m /\ o_symlink e' = o_symlink e) \/ (e' = e /\ o_stat e = Some s)).
+Lemma open_existing_not_abandon id s e e' : open_existing id s e <> OAbandon e'.
+Proof. unfold open_existing. destruct (f_type s); destruct (may_write id s); discriminate. Qed.
+
+(* open(O_CREAT) either makes a new file of the effective uid/gid (nothing was there, or a dangling symlink,
+   and the directory is writable) or reuses the file that is there, owner and mode unchanged *)
+Lemma fs_open_creat_opened excl nofollow cc id m e e' s :
+  fs_open_creat excl nofollow cc id m e = OOpened e' s ->
+  o_stat e' = Some s /\ o_symlink e' = o_symlink e /\
+  ((o_stat e = None /\ s = fresh_file id m /\ cc = true) \/
+   (e' = e /\ o_stat e = Some s /\ may_write id s = true)).
 Proof.
   unfold fs_open_creat. destruct (o_symlink e) eqn:L.
   - destruct (excl || nofollow); [discriminate|]. destruct (o_stat e) as [s0|] eqn:E.
-    + intros H. apply open_existing_opened in H; [|exact E]. destruct H; subst. tauto.
-    + intros H. inversion H; subst. cbn. tauto.
+    + intros H. apply open_existing_opened in H; [|exact E]. destruct H as (-> & -> & W).
+      rewrite E, L. tauto.
+    + destruct cc; [|discriminate]. intros H. inversion H; subst. cbn. tauto.
   - destruct (o_stat e) as [s0|] eqn:E.
     + destruct excl; [discriminate|]. intros H. apply open_existing_opened in H; [|exact E].
-      destruct H; subst. tauto.
-    + intros H. inversion H; subst. cbn. tauto.
+      destruct H as (-> & -> & W). rewrite E, L. tauto.
+    + destruct cc; [|discriminate]. intros H. inversion H; subst. cbn. tauto.
+Qed.
+
+Lemma fs_open_creat_not_abandon excl nofollow cc id m e e' :
+  fs_open_creat excl nofollow cc id m e <> OAbandon e'.
+Proof.
+  unfold fs_open_creat. destruct (o_symlink e), (excl || nofollow), excl, (o_stat e), cc;
+  try discriminate; apply open_existing_not_abandon.
 Qed.
 
 Lemma how_facts :
@@ -662,128 +690,305 @@ Lemma how_facts :
 Proof. repeat split; try (intros [|]; reflexivity). Qed.
 
 Lemma recipes_no_chmod :
-  (forall fg, r_chmod (lock_recipe fg) = None) /\ r_chmod log_recipe = None.
-Proof. split; [intros [|]; reflexivity|reflexivity]. Qed.
+  (forall fg, r_chmod (lock_recipe fg) = None) /\ r_chmod log_recipe = None /\
+  (forall fg, r_chmod (pid_recipe fg) = None) /\ (forall fg, r_chmod (seed_recipe fg) = None).
+Proof. repeat split; try (intros [|]; reflexivity). Qed.
 
-(* pid file: whatever was at the name (file of any type, owner and mode, symlink, dangling symlink), the pid is
-   written to a brand-new regular file of the effective uid within 0644; only a directory in the way leaves
-   no pid file.  The write never blocks. *)
-Theorem pid_any_prior fg id u e : u < 512 ->
-  let r := pid_write fg id u e in
-  w_hang r = false /\
-  match w_file r with
-  | Some s => safe_new id 420 (w_entry r) s
-  | None => entry_is_dir e /\ w_entry r = e
+(* what the source does to an old pid / seed file it could not unlink (GenPath *_rechmod): the pid file is set
+   to 0644 less (part of) the umask (and, as the source stands, used even if that fails: the statements hold
+   either way); the seed is set to 0600 or given up *)
+Lemma rechmod_facts :
+  (forall fg, exists keep gives_up, pid_rechmod fg = Some (420, keep, gives_up)) /\
+  (forall fg, exists keep, seed_rechmod fg = Some (384, keep, true)).
+Proof. split; intros [|]; repeat eexists; reflexivity. Qed.
+
+Lemma reuse_mode_within base keep u : within (reuse_mode base keep u) base = true.
+Proof. apply created_within_requested. Qed.
+
+(* ---- unlink, then create: the general statement about the file that ends up written ---- *)
+(* rc_ok bound rc: an old file that could not be removed is set to a mode within bound (or, failing that, given
+   up when gives_up) *)
+Definition rc_sets (bound : N) (gives_up : bool) (rc : rechmod) : Prop :=
+  exists keep, rc = Some (bound, keep, gives_up).
+
+Lemma may_chmod_set_mode id s m : may_chmod id (set_mode s m) = may_chmod id s.
+Proof. reflexivity. Qed.
+
+Lemma may_chmod_fresh id m : may_chmod id (fresh_file id m) = true.
+Proof. unfold may_chmod, fresh_file. cbn. rewrite N.eqb_refl. apply orb_true_r. Qed.
+
+Lemma create_unlinked rc h r id u p e bound gives_up :
+  h_unlink h = true -> r_chmod r = None -> within (created r u) bound = true -> rc_sets bound gives_up rc ->
+  match create_with rc h r id u p e with
+  | OOpened e' s =>
+      o_stat e' = Some s /\
+      (may_chmod id s = true -> within (f_mode s) bound = true) /\
+      (gives_up = true -> may_chmod id s = true) /\
+      (unlink_fails p e = false -> e' = e_file s /\ s = fresh_file id (created r u)) /\
+      (unlink_fails p e = true ->
+         o_symlink e' = o_symlink e /\ f_uid s = match o_stat e with Some s0 => f_uid s0 | None => i_euid id end /\
+         (may_chmod id s = false -> o_stat e = Some s))
+  | OFail => True
+  | OBlock => unlink_fails p e = true
+  | OAbandon e' => unlink_fails p e = true /\ gives_up = true /\ o_symlink e' = o_symlink e /\
+                   exists s0, o_stat e = Some s0 /\ o_stat e' = Some s0 /\ may_chmod id s0 = false
   end.
 Proof.
-  intros U. cbv zeta. unfold pid_write.
-  rewrite create_at_unlinked by apply how_facts.
-  destruct (unlink_fails e) eqn:F; cbn [w_hang w_file w_entry].
-  - split; [reflexivity|]. split; [apply unlink_fails_spec; exact F|].
-    destruct (fs_unlink_cases e) as [[_ E]|[X _]]; [exact E|congruence].
-  - split; [reflexivity|]. unfold safe_new, fresh_file; cbn [f_type f_uid f_gid f_mode].
-    repeat split. apply (modes_for_all_umasks fg u U).
+  intros HU NC W (keep & ->). unfold create_with. rewrite HU, NC. cbn [andb].
+  assert (CM : created_mode (r_req r) (in_force r u) = created r u) by (unfold created; rewrite NC; reflexivity).
+  rewrite CM.
+  destruct (fs_unlink_cases p e) as [[F E]|[F E]]; rewrite E, F.
+  - (* the old name is still there: open reuses it *)
+    destruct (fs_open_creat (h_excl h) (h_nofollow h) (p_create p) id (created r u) e) as [e' s| | |e'] eqn:O.
+    + apply fs_open_creat_opened in O. destruct O as (S & L & O).
+      unfold rechmod_step. destruct (may_chmod id s) eqn:MC.
+      * cbn [o_stat o_symlink]. rewrite may_chmod_set_mode, MC.
+        split; [reflexivity|]. split; [intros _; cbn [set_mode f_mode]; apply reuse_mode_within|].
+        split; [reflexivity|]. split; [discriminate|]. intros _.
+        split; [exact L|]. split; [|discriminate]. cbn [set_mode f_uid].
+        destruct O as [(N & -> & _)|(_ & N & _)]; rewrite N; reflexivity.
+      * destruct gives_up.
+        -- split; [reflexivity|]. split; [reflexivity|]. split; [exact L|].
+           destruct O as [(_ & -> & _)|(-> & N & _)]; [rewrite may_chmod_fresh in MC; discriminate|].
+           exists s. tauto.
+        -- split; [exact S|]. split; [congruence|]. split; [discriminate|]. split; [congruence|]. intros _.
+           split; [exact L|].
+           destruct O as [(_ & -> & _)|(-> & N & _)]; [rewrite may_chmod_fresh in MC; discriminate|].
+           rewrite N. tauto.
+    + exact I.
+    + reflexivity.
+    + exfalso. eapply fs_open_creat_not_abandon. exact O.
+  - (* the name is free now: a brand-new file, if the directory may be written *)
+    rewrite open_absent. destruct (p_create p); [|exact I].
+    cbn [o_stat e_file]. split; [reflexivity|].
+    split; [intros _; exact W|]. split; [intros _; apply may_chmod_fresh|].
+    split; [tauto|discriminate].
 Qed.
 
-(* seed file written at exit: the same, within 0600 *)
-Theorem seed_write_any_prior fg id u e : u < 512 ->
-  let r := seed_write fg id u e in
-  w_hang r = false /\
+(* pid file: whatever was at the name (file of any type, owner and mode, symlink, dangling symlink) and whatever
+   the process may do in the directory: the file the pid is written to is what stat reports at the name; if the
+   name can be removed it is a brand-new regular file of the effective uid within 0644; if it cannot, the old
+   file is reused and — being the daemon's own, or the daemon being root — set to a mode within 0644; the one
+   case left is a file of another owner that the daemon may write but neither remove nor chmod: its mode stays.
+   The write blocks only on something that cannot be removed. *)
+Theorem pid_any_prior fg id u p e : u < 512 ->
+  let r := pid_write fg id u p e in
+  (w_hang r = true -> unlink_fails p e = true) /\
   match w_file r with
-  | Some s => safe_new id 384 (w_entry r) s
-  | None => entry_is_dir e /\ w_entry r = e
+  | Some s =>
+      o_stat (w_entry r) = Some s /\
+      (may_chmod id s = true -> within (f_mode s) 420 = true) /\
+      (unlink_fails p e = false -> safe_new id 420 (w_entry r) s) /\
+      (may_chmod id s = false -> unlink_fails p e = true /\ o_stat e = Some s)
+  | None => True
   end.
 Proof.
-  intros U. cbv zeta. unfold seed_write.
-  rewrite create_at_unlinked by apply how_facts.
-  destruct (unlink_fails e) eqn:F; cbn [w_hang w_file w_entry].
-  - split; [reflexivity|]. split; [apply unlink_fails_spec; exact F|].
-    replace (h_unlink (seed_how fg)) with true by (symmetry; apply how_facts).
-    destruct (fs_unlink_cases e) as [[_ E]|[X _]]; [exact E|congruence].
-  - split; [reflexivity|]. unfold safe_new, fresh_file; cbn [f_type f_uid f_gid f_mode].
-    repeat split. apply (modes_for_all_umasks fg u U).
+  intros U. cbv zeta. unfold pid_write, pid_write_with.
+  destruct how_facts as (HP & _). destruct recipes_no_chmod as (_ & _ & NC & _).
+  destruct rechmod_facts as (RC & _). destruct (modes_for_all_umasks fg u U) as (_ & _ & M & _).
+  destruct (RC fg) as (keep & gu & RCE).
+  pose proof (create_unlinked (pid_rechmod fg) (pid_how fg) (pid_recipe fg) id u p e 420 gu
+                (HP fg) (NC fg) M (ex_intro _ keep RCE)) as C.
+  destruct (create_with (pid_rechmod fg) (pid_how fg) (pid_recipe fg) id u p e) as [e' s| | |e'];
+  cbn [w_hang w_file w_entry].
+  - split; [discriminate|]. destruct C as (S & B & _ & N & R).
+    split; [exact S|]. split; [exact B|]. split.
+    + intros F. destruct (N F) as [-> ->]. unfold safe_new, fresh_file; cbn [f_type f_uid f_gid f_mode].
+      repeat split. exact M.
+    + intros MC. destruct (unlink_fails p e) eqn:F.
+      * split; [reflexivity|]. apply (R eq_refl). exact MC.
+      * destruct (N eq_refl) as [_ ->]. rewrite may_chmod_fresh in MC. discriminate.
+  - split; [discriminate|exact I].
+  - split; [intros _; exact C|exact I].
+  - split; [discriminate|exact I].
 Qed.
 
-(* socket: a brand-new socket of the effective uid with mode 0777, or the daemon dies (directory in the way) *)
-Theorem sock_any_prior fg id u e : u < 512 ->
-  match sock_bind fg id u e with
+(* seed file written at exit: the same within 0600 — and a file of another owner is never written to: a seed
+   that could not be removed is overwritten only after its mode has been set to 0600 *)
+Theorem seed_write_any_prior fg id u p e : u < 512 ->
+  let r := seed_write fg id u p e in
+  (w_hang r = true -> unlink_fails p e = true) /\
+  match w_file r with
+  | Some s =>
+      o_stat (w_entry r) = Some s /\ within (f_mode s) 384 = true /\ may_chmod id s = true /\
+      (unlink_fails p e = false -> safe_new id 384 (w_entry r) s) /\
+      (unlink_fails p e = true ->
+         o_symlink (w_entry r) = o_symlink e /\
+         f_uid s = match o_stat e with Some s0 => f_uid s0 | None => i_euid id end)
+  | None => True
+  end.
+Proof.
+  intros U. cbv zeta. unfold seed_write, seed_write_with.
+  destruct how_facts as (_ & HP & _). destruct recipes_no_chmod as (_ & _ & _ & NC).
+  destruct rechmod_facts as (_ & RC). destruct (modes_for_all_umasks fg u U) as (_ & _ & _ & _ & M).
+  pose proof (create_unlinked (seed_rechmod fg) (seed_how fg) (seed_recipe fg) id u p e 384 true
+                (HP fg) (NC fg) M (RC fg)) as C.
+  destruct (create_with (seed_rechmod fg) (seed_how fg) (seed_recipe fg) id u p e) as [e' s| | |e'];
+  cbn [w_hang w_file w_entry].
+  - split; [discriminate|]. destruct C as (S & B & G & N & R).
+    split; [exact S|]. split; [exact (B (G eq_refl))|]. split; [exact (G eq_refl)|]. split.
+    + intros F. destruct (N F) as [-> ->]. unfold safe_new, fresh_file; cbn [f_type f_uid f_gid f_mode].
+      repeat split. exact M.
+    + intros F. destruct (R F) as (L & O & _). tauto.
+  - split; [discriminate|exact I].
+  - split; [intros _; exact C|exact I].
+  - split; [discriminate|exact I].
+Qed.
+
+(* the source as it was before the repair (no fchmod of a reused file) violates both bounds: a daemon that is
+   not root, its own stale file in a directory it may not write to *)
+Definition daemon_id : ident := mkid 4242 4242 4242 4242 4242 4242.
+Definition no_write_perm : dperm := mkp false false.
+
+Lemma seed_reuse_old_refuted :
+  exists fg id u p e s, u < 512 /\ w_file (seed_write_with None fg id u p e) = Some s /\
+                        f_uid s = i_euid id /\ within (f_mode s) 384 = false.
+Proof.
+  exists true, daemon_id, 18, no_write_perm, (e_file (mkf TReg 4242 4242 420)), (mkf TReg 4242 4242 420).
+  vm_compute. repeat split.
+Qed.
+
+Lemma pid_reuse_old_refuted :
+  exists fg id u p e s, u < 512 /\ w_file (pid_write_with None fg id u p e) = Some s /\
+                        f_uid s = i_euid id /\ within (f_mode s) 420 = false.
+Proof.
+  exists true, daemon_id, 18, no_write_perm, (e_file (mkf TReg 4242 4242 438)), (mkf TReg 4242 4242 438).
+  vm_compute. repeat split.
+Qed.
+
+(* ... and the same states under the source as observed now: 0600 and 0644 *)
+Lemma reuse_now :
+  w_file (seed_write true daemon_id 18 no_write_perm (e_file (mkf TReg 4242 4242 420))) = Some (mkf TReg 4242 4242 384) /\
+  w_file (pid_write true daemon_id 18 no_write_perm (e_file (mkf TReg 4242 4242 438))) = Some (mkf TReg 4242 4242 420).
+Proof. vm_compute. split; reflexivity. Qed.
+
+(* when the process may remove names in the directory (always, for uid 0) the file written is brand-new *)
+Lemma unlink_fails_removable p e : p_remove p = true -> unlink_fails p e = is_dir_entry e.
+Proof. intros H. unfold unlink_fails. rewrite H. cbn. rewrite andb_false_r, orb_false_r. reflexivity. Qed.
+
+Lemma create_dir_in_the_way rc h r id u p e :
+  h_unlink h = true -> is_dir_entry e = true -> create_with rc h r id u p e = OFail.
+Proof.
+  intros HU D. unfold create_with. rewrite HU.
+  assert (F : unlink_fails p e = true) by (unfold unlink_fails; rewrite D; reflexivity).
+  unfold fs_unlink. rewrite F. rewrite open_dir_fails by exact D. reflexivity.
+Qed.
+
+Theorem pid_removable fg id u p e : u < 512 -> p_remove p = true ->
+  match w_file (pid_write fg id u p e) with
+  | Some s => safe_new id 420 (w_entry (pid_write fg id u p e)) s
+  | None => True
+  end.
+Proof.
+  intros U R. destruct (is_dir_entry e) eqn:D.
+  - unfold pid_write, pid_write_with. rewrite create_dir_in_the_way; [exact I|apply how_facts|exact D].
+  - pose proof (pid_any_prior fg id u p e U) as P. cbv zeta in P. destruct P as [_ P].
+    destruct (w_file (pid_write fg id u p e)); [|exact I].
+    apply P. rewrite unlink_fails_removable by exact R. exact D.
+Qed.
+
+Theorem seed_removable fg id u p e : u < 512 -> p_remove p = true ->
+  match w_file (seed_write fg id u p e) with
+  | Some s => safe_new id 384 (w_entry (seed_write fg id u p e)) s
+  | None => True
+  end.
+Proof.
+  intros U R. destruct (is_dir_entry e) eqn:D.
+  - unfold seed_write, seed_write_with. rewrite create_dir_in_the_way; [exact I|apply how_facts|exact D].
+  - pose proof (seed_write_any_prior fg id u p e U) as P. cbv zeta in P. destruct P as [_ P].
+    destruct (w_file (seed_write fg id u p e)); [|exact I].
+    apply P. rewrite unlink_fails_removable by exact R. exact D.
+Qed.
+
+Lemma perm_root id chain e : i_euid id = 0 -> perm_at id chain e = all_perm.
+Proof.
+  intros H. unfold perm_at, dir_writable, sticky_allows. rewrite H. destruct chain; reflexivity.
+Qed.
+
+(* socket: a brand-new socket of the effective uid with mode 0777, or the daemon dies (a directory in the way,
+   or the process may not remove the old name / create the new one) *)
+Theorem sock_any_prior fg id u p e : u < 512 ->
+  match sock_bind fg id u p e with
   | Some e' => e' = e_file (mkf TSock (i_euid id) (i_egid id) 511)
-  | None => entry_is_dir e
+  | None => unlink_fails p e = true \/ p_create p = false
   end.
 Proof.
   intros U. unfold sock_bind.
   replace (h_unlink (sock_how fg)) with true by (symmetry; apply how_facts). cbn [andb].
-  destruct (fs_unlink_cases e) as [[F E]|[F E]]; rewrite F.
-  - apply unlink_fails_spec. exact F.
-  - rewrite E. cbn. destruct (modes_for_all_umasks fg u U) as [M _]. rewrite M. reflexivity.
+  destruct (fs_unlink_cases p e) as [[F E]|[F E]]; rewrite F.
+  - left. reflexivity.
+  - rewrite E. cbn [present e_absent o_symlink o_stat orb]. destruct (p_create p); cbn [negb]; [|right; reflexivity].
+    destruct (modes_for_all_umasks fg u U) as [M _]. rewrite M. reflexivity.
 Qed.
 
 (* lock file: if the daemon carries on with a lock, the locked file — what stat() reports at the name — is a
-   regular file of mode exactly 0200 owned by the effective uid; without a lock only under --force; with
-   --force the lock file is brand-new *)
-Theorem lock_any_prior fg force id u e :
-  match lock_step fg force id u e with
+   regular file of mode exactly 0200 owned by the effective uid, whatever was there and whatever the process
+   may do in the directory; without a lock only under --force; with --force (and the old name removable) the
+   lock file is brand-new *)
+Theorem lock_any_prior fg force id u p e :
+  match lock_step fg force id u p e with
   | LLocked e' s => o_stat e' = Some s /\ f_type s = TReg /\ f_mode s = 128 /\ f_uid s = i_euid id /\
-                    (force = true -> e' = e_file s /\ f_gid s = i_egid id)
+                    (force = true -> unlink_fails p e = false -> e' = e_file s /\ f_gid s = i_egid id)
   | LNoLock _ => force = true
   | LRefuse _ | LHang => True
   end.
 Proof.
   unfold lock_step. destruct how_facts as (_ & _ & _ & HL & _). rewrite HL. cbn [h_unlink h_excl h_nofollow].
-  rewrite orb_false_r. unfold create_at. cbn [h_unlink h_excl h_nofollow].
+  rewrite orb_false_r. unfold create_at, create_with. cbn [h_unlink h_excl h_nofollow andb].
   destruct recipes_no_chmod as [NC _]. rewrite NC.
   set (m := created_mode _ _).
-  destruct (fs_open_creat false false id m (if force then fs_unlink e else e)) as [e' s| |] eqn:O.
+  destruct (fs_open_creat false false (p_create p) id m (if force then fs_unlink p e else e)) as [e' s| | |e'] eqn:O.
   - rewrite lock_owner_effective.
     destruct (is_reg s) eqn:R; cbn [andb]; [|exact I].
     destruct (N.eqb_spec (f_mode s) s_iwusr) as [M|M]; cbn [andb]; [|exact I].
     destruct (N.eqb_spec (f_uid s) (i_euid id)) as [W|W]; [|exact I].
-    apply fs_open_creat_opened in O. destruct O as [S O].
+    apply fs_open_creat_opened in O. destruct O as (S & L & O).
     split; [exact S|]. split; [apply is_reg_true; exact R|]. split; [exact M|]. split; [exact W|].
-    intros ->. destruct (fs_unlink_cases e) as [[F E]|[F E]]; rewrite E in O.
-    + exfalso. apply unlink_fails_spec in F. destruct F as [_ (s0 & E0 & T0)].
-      destruct O as [(X & _)|(_ & X)]; [congruence|].
-      assert (s0 = s) by congruence. subst. apply is_reg_true in R. congruence.
-    + destruct O as [(_ & -> & L)|(_ & X)]; [|discriminate].
-      split; [|reflexivity]. destruct e' as [l st]. cbn in L, S. subst. reflexivity.
+    intros -> F. destruct (fs_unlink_cases p e) as [[F' _]|[_ E]]; [congruence|]. rewrite E in O, L.
+    destruct O as [(_ & -> & _)|(_ & X & _)]; [|discriminate].
+    split; [|reflexivity]. destruct e' as [l st]. cbn in L, S. subst. reflexivity.
   - destruct force; [reflexivity|exact I].
   - exact I.
+  - exfalso. eapply fs_open_creat_not_abandon. exact O.
 Qed.
 
-(* on a clean slate the lock is created with mode 0200 by the effective uid *)
-Lemma lock_fresh fg force id u : u < 512 ->
-  lock_step fg force id u e_absent = LLocked (e_file (fresh_file id 128)) (fresh_file id 128).
+(* on a clean slate (and a directory the process may write) the lock is created with mode 0200 by the
+   effective uid *)
+Lemma lock_fresh fg force id u p : u < 512 -> p_create p = true ->
+  lock_step fg force id u p e_absent = LLocked (e_file (fresh_file id 128)) (fresh_file id 128).
 Proof.
-  intros U. unfold lock_step. destruct how_facts as (_ & _ & _ & HL & _). rewrite HL.
+  intros U PC. unfold lock_step. destruct how_facts as (_ & _ & _ & HL & _). rewrite HL.
   cbn [h_unlink h_excl h_nofollow]. rewrite orb_false_r.
-  replace (if force then fs_unlink e_absent else e_absent) with e_absent by (destruct force; reflexivity).
-  unfold create_at. cbn [h_unlink h_excl h_nofollow]. rewrite open_absent.
+  replace (if force then fs_unlink p e_absent else e_absent) with e_absent by (destruct force; reflexivity).
+  unfold create_at, create_with. cbn [h_unlink h_excl h_nofollow andb]. rewrite open_absent, PC.
   destruct recipes_no_chmod as [NC _]. rewrite NC.
   destruct (modes_for_all_umasks fg u U) as (_ & M & _). unfold created in M. rewrite NC in M. rewrite M.
   rewrite lock_owner_effective. cbn. rewrite N.eqb_refl. reflexivity.
 Qed.
 
 (* log file (daemon mode, no --force): what is opened is a regular file of the effective uid reached without a
-   symlink and not group- or world-writable; when nothing was there it is new and within 0640 *)
-Theorem log_any_prior id tg u o chain : u < 512 ->
+   symlink and not group- or world-writable; when nothing was there it is new and within 0640; the open fails
+   only on a file the process may not write or a directory it may not create the file in; it never blocks *)
+Theorem log_any_prior id tg u p o chain : u < 512 ->
   logfile_check false id tg o chain = None ->
-  match log_open id u o with
+  match log_open id u p o with
   | OOpened e' s => o_symlink e' = false /\ o_stat e' = Some s /\ f_type s = TReg /\ f_uid s = i_euid id /\
                     N.testbit (f_mode s) 4 = false /\ N.testbit (f_mode s) 1 = false /\
                     (o_stat o = None -> f_gid s = i_egid id /\ within (f_mode s) 416 = true)
-  | OFail => exists s, o_stat o = Some s /\ may_write id s = false
-  | OBlock => False
+  | OFail => (exists s, o_stat o = Some s /\ may_write id s = false) \/ (o_stat o = None /\ p_create p = false)
+  | OBlock | OAbandon _ => False
   end.
 Proof.
   intros U H. apply logfile_spec in H. destruct H as [[L K] _].
-  unfold log_open, create_at. destruct how_facts as (_ & _ & _ & _ & HL). rewrite HL.
-  cbn [h_unlink h_excl h_nofollow]. destruct recipes_no_chmod as [_ NC]. rewrite NC.
+  unfold log_open, create_at, create_with. destruct how_facts as (_ & _ & _ & _ & HL). rewrite HL.
+  cbn [h_unlink h_excl h_nofollow andb]. destruct recipes_no_chmod as (_ & NC & _). rewrite NC.
   destruct (modes_for_all_umasks false u U) as (_ & _ & _ & M & _).
   unfold created in M. rewrite NC in M.
   set (m := created_mode _ _) in *.
   destruct o as [l st]. cbn in L, K. subst l. unfold fs_open_creat. cbn [o_symlink o_stat].
   destruct K as [->|(s & -> & T & W & G & O)].
-  - cbn [e_file o_symlink o_stat fresh_file f_type f_uid f_gid f_mode].
+  - destruct (p_create p); [|right; split; reflexivity].
+    cbn [e_file o_symlink o_stat fresh_file f_type f_uid f_gid f_mode].
     split; [reflexivity|]. split; [reflexivity|]. split; [reflexivity|]. split; [reflexivity|].
     split.
     { pose proof (proj1 (within_spec m 416) M 4) as X. destruct (N.testbit m 4); [|reflexivity].
@@ -796,7 +1001,7 @@ Proof.
     + cbn [o_symlink o_stat].
       split; [reflexivity|]. split; [reflexivity|]. split; [exact T|]. split; [exact W|].
       split; [exact G|]. split; [exact O|]. discriminate.
-    + exists s. split; [reflexivity|exact MW].
+    + left. exists s. split; [reflexivity|exact MW].
 Qed.
 
 (* ---- the whole start-up ---- *)
@@ -834,7 +1039,7 @@ Proof.
   split.
   { match goal with H : sr_refuse _ = None |- _ =>
       unfold seed_of in H; rewrite NF in H;
-      apply (proj1 (proj2 (proj2 (proj2 (seed_spec false _ _ _ _)))) eq_refl) in H; exact H end. }
+      apply (proj1 (proj2 (proj2 (proj2 (seed_spec false _ _ _ _ _)))) eq_refl) in H; exact H end. }
   split.
   { match goal with H : sock_check _ _ _ _ _ = None |- _ => unfold sock_check in H;
       destruct (dir_why (dir_verdict FSock (c_sock c) (c_id c) (c_tg c) (c_sockdir c))) eqn:E; [discriminate|];
@@ -849,12 +1054,14 @@ Proof.
       rewrite FG in H; apply tag_none in H; apply logfile_spec in H; exact H end. }
   match goal with H : lock_why _ = None |- _ => rename H into HL end.
   unfold lock_of in *. rewrite NF in *.
-  pose proof (lock_any_prior (c_fg c) false (c_id c) (c_umask c) (c_lock c)) as P.
-  destruct (lock_step (c_fg c) false (c_id c) (c_umask c) (c_lock c)) as [e' s|e'|w|]; try discriminate.
+  pose proof (lock_any_prior (c_fg c) false (c_id c) (c_umask c) (perm_at (c_id c) (c_sockdir c) (c_lock c)) (c_lock c)) as P.
+  destruct (lock_step (c_fg c) false (c_id c) (c_umask c) (perm_at (c_id c) (c_sockdir c) (c_lock c)) (c_lock c))
+    as [e' s|e'|w|]; try discriminate.
   - exists e', s. tauto.
 Qed.
 
-(* a successful start (forced or not), whatever was at the five names beforehand *)
+(* a successful start (forced or not), whatever was at the five names beforehand and whatever the process may
+   do in their directories *)
 Theorem started_files (c : config) : c_umask c < 512 -> startup c = None ->
   let id := c_id c in let a := after_start c in
   a_sock a = e_file (mkf TSock (i_euid id) (i_egid id) 511) /\
@@ -864,12 +1071,17 @@ Theorem started_files (c : config) : c_umask c < 512 -> startup c = None ->
   | _ => False
   end /\
   match w_file (pid_of c) with
-  | Some s => safe_new id 420 (a_pid a) s
-  | None => entry_is_dir (c_pid c) /\ a_pid a = c_pid c
+  | Some s => o_stat (a_pid a) = Some s /\
+              (may_chmod id s = true -> within (f_mode s) 420 = true) /\
+              (unlink_fails (perm_at id (c_piddir c) (c_pid c)) (c_pid c) = false -> safe_new id 420 (a_pid a) s) /\
+              (may_chmod id s = false -> o_stat (c_pid c) = Some s)
+  | None => True
   end /\
   match w_file (seed_written c) with
-  | Some s => safe_new id 384 (seed_after c) s
-  | None => sr_keep (seed_of c) = true -> entry_is_dir (seed_at_exit c) /\ seed_after c = seed_at_exit c
+  | Some s => o_stat (seed_after c) = Some s /\ within (f_mode s) 384 = true /\ may_chmod id s = true /\
+              (unlink_fails (perm_at id (c_seeddir c) (seed_at_exit c)) (seed_at_exit c) = false ->
+               safe_new id 384 (seed_after c) s)
+  | None => True
   end /\
   (c_fg c = false -> c_force c = false ->
    exists e' s, a_log a = Some e' /\ o_symlink e' = false /\ o_stat e' = Some s /\ f_type s = TReg /\
@@ -881,31 +1093,84 @@ Proof.
   repeat match goal with H : tag _ _ = None |- _ => apply tag_none in H end.
   unfold after_start; cbn [a_sock a_lock a_pid a_log].
   split.
-  { pose proof (sock_any_prior (c_fg c) (c_id c) (c_umask c) (c_sock c) U) as P. unfold bind_of in *.
-    destruct (sock_bind (c_fg c) (c_id c) (c_umask c) (c_sock c)); [exact P|discriminate]. }
+  { pose proof (sock_any_prior (c_fg c) (c_id c) (c_umask c) (perm_at (c_id c) (c_sockdir c) (c_sock c)) (c_sock c) U) as P.
+    unfold bind_of in *.
+    destruct (sock_bind (c_fg c) (c_id c) (c_umask c) (perm_at (c_id c) (c_sockdir c) (c_sock c)) (c_sock c));
+    [exact P|discriminate]. }
   split.
-  { pose proof (lock_any_prior (c_fg c) (c_force c) (c_id c) (c_umask c) (c_lock c)) as P. unfold lock_of in *.
-    destruct (lock_step (c_fg c) (c_force c) (c_id c) (c_umask c) (c_lock c)); try discriminate.
+  { pose proof (lock_any_prior (c_fg c) (c_force c) (c_id c) (c_umask c) (perm_at (c_id c) (c_sockdir c) (c_lock c)) (c_lock c)) as P.
+    unfold lock_of in *.
+    destruct (lock_step (c_fg c) (c_force c) (c_id c) (c_umask c) (perm_at (c_id c) (c_sockdir c) (c_lock c)) (c_lock c));
+    try discriminate.
     - cbn [lock_entry]. tauto.
     - exact P. }
   split.
-  { apply (pid_any_prior (c_fg c) (c_id c) (c_umask c) (c_pid c) U). }
+  { pose proof (pid_any_prior (c_fg c) (c_id c) (c_umask c) (perm_at (c_id c) (c_piddir c) (c_pid c)) (c_pid c) U) as P.
+    cbv zeta in P. destruct P as [_ P]. unfold pid_of.
+    destruct (w_file (pid_write (c_fg c) (c_id c) (c_umask c) (perm_at (c_id c) (c_piddir c) (c_pid c)) (c_pid c)));
+    [|exact I]. destruct P as (P1 & P2 & P3 & P4).
+    split; [exact P1|]. split; [exact P2|]. split; [exact P3|]. intros MC. apply (P4 MC). }
   split.
   { unfold seed_after, seed_written. destruct (sr_keep (seed_of c)).
-    - pose proof (seed_write_any_prior (c_fg c) (c_id c) (c_umask c) (seed_at_exit c) U) as P. cbv zeta in P.
+    - pose proof (seed_write_any_prior (c_fg c) (c_id c) (c_umask c)
+                    (perm_at (c_id c) (c_seeddir c) (seed_at_exit c)) (seed_at_exit c) U) as P. cbv zeta in P.
       destruct P as [_ P].
-      destruct (w_file (seed_write (c_fg c) (c_id c) (c_umask c) (seed_at_exit c))); [exact P|intros _; exact P].
-    - cbn. discriminate. }
+      destruct (w_file (seed_write (c_fg c) (c_id c) (c_umask c) (perm_at (c_id c) (c_seeddir c) (seed_at_exit c))
+                                   (seed_at_exit c))); [|exact I].
+      destruct P as (P1 & P2 & P3 & P4 & _). split; [exact P1|]. split; [exact P2|]. split; [exact P3|exact P4].
+    - cbn. exact I. }
   intros FG NF.
   match goal with H : (if c_fg c then None else tag SLog (logfile_check _ _ _ _ _)) = None |- _ =>
     rewrite FG in H; apply tag_none in H; rewrite NF in H; rename H into HC end.
   match goal with H : (if c_fg c then None else tag SLog (open_why _)) = None |- _ =>
     rewrite FG in H; apply tag_none in H; rename H into HO end.
   rewrite FG. unfold log_of in *.
-  pose proof (log_any_prior _ _ (c_umask c) _ _ U HC) as P.
-  destruct (log_open (c_id c) (c_umask c) (c_log c)) as [e' s| |]; try discriminate.
+  pose proof (log_any_prior _ _ (c_umask c) (perm_at (c_id c) (c_logdir c) (c_log c)) _ _ U HC) as P.
+  destruct (log_open (c_id c) (c_umask c) (perm_at (c_id c) (c_logdir c) (c_log c)) (c_log c)) as [e' s| | |];
+  try discriminate.
   exists e', s. destruct P as (P1 & P2 & P3 & P4 & P5 & P6 & P7). repeat split; try assumption.
   intros N. apply P7. exact N.
+Qed.
+
+(* a seed that fails the checks and CANNOT be removed (the process may not write to the seed's directory):
+   ignored, not used, left in place at start-up; at exit it is overwritten only after its mode has been set to
+   exactly 0600 — or, if that is not the daemon's to do, not written to at all *)
+Theorem seed_unremovable (c : config) : c_umask c < 512 -> startup c = None ->
+  seed_present (c_seed c) -> ~ seed_acceptable (i_euid (c_id c)) (c_seed c) ->
+  p_remove (perm_at (c_id c) (c_seeddir c) (c_seed c)) = false ->
+  sr_used (seed_of c) = false /\ sr_removed (seed_of c) = false /\ seed_at_exit c = c_seed c /\
+  match w_file (seed_written c) with
+  | Some s => o_stat (seed_after c) = Some s /\ within (f_mode s) 384 = true /\ may_chmod (c_id c) s = true /\
+              f_uid s = match o_stat (c_seed c) with Some s0 => f_uid s0 | None => i_euid (c_id c) end
+  | None => True
+  end.
+Proof.
+  intros U H P NA NR.
+  assert (SR : sr_refuse (seed_of c) = None /\ sr_hang (seed_of c) = false).
+  { unfold startup in H. apply first_some_none in H.
+    repeat match goal with H : Forall _ (_ :: _) |- _ => inversion H; clear H; subst end.
+    repeat match goal with H : tag _ _ = None |- _ => apply tag_none in H end.
+    split; [assumption|]. destruct (sr_hang (seed_of c)); [discriminate|reflexivity]. }
+  destruct SR as [SR SH]. unfold seed_of in *.
+  pose proof (seed_spec (c_force c) (c_id c) (c_tg c) (p_remove (perm_at (c_id c) (c_seeddir c) (c_seed c)))
+                        (c_seed c) (c_seeddir c)) as S. cbv zeta in S.
+  destruct S as (_ & S & _). destruct (S SR SH P NA) as (S1 & _ & S3).
+  assert (RM : sr_removed (seed_step (c_force c) (c_id c) (c_tg c) (p_remove (perm_at (c_id c) (c_seeddir c) (c_seed c)))
+                                     (c_seed c) (c_seeddir c)) = false) by (apply S3; exact NR).
+  split; [exact S1|]. split; [exact RM|].
+  assert (AE : seed_at_exit c = c_seed c) by (unfold seed_at_exit, seed_of; rewrite RM; reflexivity).
+  split; [exact AE|].
+  unfold seed_after, seed_written, seed_of. rewrite AE.
+  destruct (sr_keep _); [|exact I].
+  pose proof (seed_write_any_prior (c_fg c) (c_id c) (c_umask c) (perm_at (c_id c) (c_seeddir c) (c_seed c)) (c_seed c) U) as W.
+  cbv zeta in W. destruct W as [_ W].
+  destruct (w_file (seed_write (c_fg c) (c_id c) (c_umask c) (perm_at (c_id c) (c_seeddir c) (c_seed c)) (c_seed c)));
+  [|exact I].
+  destruct W as (W1 & W2 & W3 & _ & W5).
+  split; [exact W1|]. split; [exact W2|]. split; [exact W3|].
+  apply W5. apply unlink_fails_spec. right. split; [|exact NR].
+  unfold seed_present in P. unfold present. destruct (o_symlink (c_seed c)); [reflexivity|].
+  destruct (o_stat (c_seed c)); [reflexivity|]. destruct P as [X|X]; [discriminate|congruence].
 Qed.
 
 (* only the effective uid (and, for the group of new files, the effective gid) of the process matters:
